@@ -204,7 +204,7 @@ Definition event_ok (eps aeps q : Qc) (e : hevent) : Prop :=
   match o with
   | HApply _ o' => exists new, ob = ONew (Some new) /\ op_ok_on eps aeps q o' src new
   | HCopy _ => ob = ONew (Some src)
-  | HSetFixed _ _ _ => exists fl, ob = OFlags fl
+  | HSetFixed _ _ _ _ => exists fl, ob = OFixed fl
   | HMbr _ t => ob = OBool (must_be_refined t src)
   | HMaxDepth _ => ob = ONat (max_depth src)
   | HNumRect _ => ob = ONat (List.length src)
@@ -242,14 +242,14 @@ Theorem hstep_ok eps aeps q o s : 0 <= aeps -> hop_admissible o -> hvalid aeps s
   hvalid aeps (fst (hstep eps aeps q o s)) /\
   event_ok eps aeps q (o, hvals (hget s (hop_target o)), snd (hstep eps aeps q o s)).
 Proof.
-  intros Ha Ho V. destruct o as [k o'|k|k i b|k t|k|k|k]; cbn [hop_target hstep event_ok];
+  intros Ha Ho V. destruct o as [k o'|k|k x y b|k t|k|k|k]; cbn [hop_target hstep event_ok];
     pose proof (hget_accepted aeps s k V) as Acc.
   - cbn in Ho. destruct (htrans_ok eps aeps q o' (hnext s) (hget s k) Ha Ho Acc) as (n & hl & E & Ok).
     rewrite E. cbn [fst snd]. split; [apply hvalid_snoc; [exact V|apply Ok]|].
     split; [exact Acc|]. exists (hvals hl). split; [reflexivity|exact Ok].
   - unfold accepted in Acc. rewrite Acc. cbn [fst snd]. split; [apply hvalid_snoc; [exact V|exact Acc]|].
     split; [exact Acc|reflexivity].
-  - destruct (nth_error (hget s k) (i mod List.length (hget s k))) as [hc|]; cbn [fst snd].
+  - destruct (find (at_centre x y) (hget s k)) as [hc|]; cbn [fst snd].
     + split; [apply hset_fixed_valid; exact V|]. split; [exact Acc|]. eexists; reflexivity.
     + split; [exact V|]. split; [exact Acc|]. eexists; reflexivity.
   - cbn [fst snd]. auto.
@@ -290,34 +290,26 @@ Proof.
   change (@nil hcell) with (map (hset_cell id b) []) at 1. apply map_nth.
 Qed.
 
-Lemma mod_lt_length {A} (l : list A) i : l <> [] -> (i mod List.length l < List.length l)%nat.
-Proof. intro H. apply Nat.mod_upper_bound. destruct l; [congruence|discriminate]. Qed.
-
 Lemma accepted_nonempty aeps cells : accepted aeps cells -> cells <> [].
 Proof. intro H. apply accepted_iff in H. apply H. Qed.
 
-(* A[k].allocations[i].rect.fixed = b: the state afterwards is the state before with the flag of every cell
-   that shares the Rectangle object set to b - nothing else changes, in any allocation *)
-Theorem hset_fixed_spec eps aeps q s k i b : hvalid aeps s ->
-  let l := hget s k in
-  let j := (i mod List.length l)%nat in
-  exists hc, nth_error l j = Some hc /\
-    fst (hstep eps aeps q (HSetFixed k i b) s) = hset_fixed (fst hc) b s /\
-    nth_error (hvals (hget (hset_fixed (fst hc) b s) k)) j = Some (cset_fixed b (snd hc)) /\
-    Forall2 (Forall2 (fun x x' : hcell => fst x' = fst x /\
-                        (if Nat.eqb (fst x) (fst hc) then snd x' = cset_fixed b (snd x) else snd x' = snd x)))
-            (hallocs s) (hallocs (hset_fixed (fst hc) b s)).
+(* c.rect.fixed = b for the cell c of A[k] with centre (x, y): the state afterwards is the state before with the
+   flag of every cell that shares the Rectangle object set to b - nothing else changes, in any allocation *)
+Theorem hset_fixed_spec eps aeps q s k x y b hc : find (at_centre x y) (hget s k) = Some hc ->
+  fst (hstep eps aeps q (HSetFixed k x y b) s) = hset_fixed (fst hc) b s /\
+  In hc (hget s k) /\ centre_of (snd hc) = (x, y) /\
+  In (fst hc, cset_fixed b (snd hc)) (hget (hset_fixed (fst hc) b s) k) /\
+  Forall2 (Forall2 (fun c c' : hcell => fst c' = fst c /\
+                      (if Nat.eqb (fst c) (fst hc) then snd c' = cset_fixed b (snd c) else snd c' = snd c)))
+          (hallocs s) (hallocs (hset_fixed (fst hc) b s)).
 Proof.
-  intros V l j. pose proof (hget_accepted aeps s k V) as Acc. apply accepted_nonempty in Acc.
-  assert (Hl : l <> []). { intro E. apply Acc. unfold l in E. rewrite E. reflexivity. }
-  destruct (nth_error l j) as [hc|] eqn:E.
-  2:{ apply nth_error_None in E. pose proof (mod_lt_length l i Hl). unfold j in E. lia. }
-  exists hc. split; [reflexivity|]. split; [|split].
-  - cbn [hstep]. fold l. fold j. rewrite E. reflexivity.
-  - rewrite hget_hset. fold l. unfold hvals. rewrite map_map.
-    rewrite nth_error_map, E. cbn [option_map]. unfold hset_cell. rewrite Nat.eqb_refl. reflexivity.
-  - unfold hset_fixed; cbn [hallocs]. apply Forall2_map_r. intro x. apply Forall2_map_r. intro y.
-    unfold hset_cell. destruct (Nat.eqb (fst y) (fst hc)); cbn [fst snd]; split; reflexivity.
+  intro E. pose proof (find_some _ _ E) as [Hin Hat]. split; [|split; [exact Hin|split; [|split]]].
+  - cbn [hstep]. rewrite E. reflexivity.
+  - unfold at_centre in Hat. apply andb_true_iff in Hat. destruct Hat as [A B]. qb2p. unfold centre_of. congruence.
+  - rewrite hget_hset. apply in_map_iff. exists hc. split; [|exact Hin].
+    unfold hset_cell. rewrite Nat.eqb_refl. reflexivity.
+  - unfold hset_fixed; cbn [hallocs]. apply Forall2_map_r. intro l. apply Forall2_map_r. intro c.
+    unfold hset_cell. destruct (Nat.eqb (fst c) (fst hc)); cbn [fst snd]; split; reflexivity.
 Qed.
 
 Lemma Forall2_nth_error_l {A B} (R : A -> B -> Prop) l1 l2 : Forall2 R l1 l2 ->
@@ -329,30 +321,30 @@ Proof.
   - apply IH. exact Hn.
 Qed.
 
-(* after A[k].allocations[i].rect.fixed = True, whatever refinement operation is applied to A[k] next
-   succeeds and hands the i-th cell over whole, whatever was asked of A[k] before *)
-Theorem set_fixed_true_not_cut eps aeps q s k i o' : 0 <= aeps -> hvalid aeps s -> op_admissible o' ->
-  let s1 := fst (hstep eps aeps q (HSetFixed k i true) s) in
+(* after c.rect.fixed = True for a cell c of A[k], whatever refinement operation is applied to A[k] next succeeds
+   and hands that cell over whole (its pieces are the cell itself), whatever was asked of A[k] before *)
+Theorem set_fixed_true_not_cut eps aeps q s k x y o' hc : 0 <= aeps -> hvalid aeps s -> op_admissible o' ->
+  find (at_centre x y) (hget s k) = Some hc ->
+  let s1 := fst (hstep eps aeps q (HSetFixed k x y true) s) in
   let src := hvals (hget s1 k) in
-  let j := (i mod List.length src)%nat in
-  exists c new parts, nth_error src j = Some c /\ fixed (crect c) = true /\
+  let c := cset_fixed true (snd hc) in
+  fixed (crect c) = true /\
+  exists j new parts, nth_error src j = Some c /\
     snd (hstep eps aeps q (HApply k o') s1) = ONew (Some new) /\
     new = concat parts /\ Forall2 cell_refines src parts /\ nth_error parts j = Some [c].
 Proof.
-  intros Ha V Ho s1 src j.
-  destruct (hset_fixed_spec eps aeps q s k i true V) as (hc & Hn & Hs & Hc & _).
+  intros Ha V Ho E s1 src c. split; [reflexivity|].
+  destruct (hset_fixed_spec eps aeps q s k x y true hc E) as (Hs & _ & _ & Hin & _).
   assert (V1 : hvalid aeps s1).
-  { unfold s1. apply (hstep_ok eps aeps q (HSetFixed k i true) s Ha I V). }
-  assert (Ej : j = (i mod List.length (hget s k))%nat).
-  { unfold j, src, s1. rewrite Hs, hget_hset. unfold hvals. rewrite !map_length. reflexivity. }
+  { unfold s1. apply (hstep_ok eps aeps q (HSetFixed k x y true) s Ha I V). }
   pose proof (hget_accepted aeps s1 k V1) as Acc. fold src in Acc.
-  destruct (htrans_ok eps aeps q o' (hnext s1) (hget s1 k) Ha Ho Acc) as (n & hl & E & (Er & (parts & F & Ec) & A)).
-  exists (cset_fixed true (snd hc)), (hvals hl), parts.
-  assert (Hsrc : nth_error src j = Some (cset_fixed true (snd hc))).
-  { unfold src, s1. rewrite Hs, Ej. exact Hc. }
-  split; [exact Hsrc|]. split; [reflexivity|]. split; [cbn [hstep]; rewrite E; reflexivity|].
+  destruct (htrans_ok eps aeps q o' (hnext s1) (hget s1 k) Ha Ho Acc) as (n & hl & Et & (Er & (parts & F & Ec) & A)).
+  assert (Hc : In c src).
+  { unfold src, s1. rewrite Hs. unfold hvals. apply in_map_iff. exists (fst hc, c). split; [reflexivity|exact Hin]. }
+  apply In_nth_error in Hc. destruct Hc as (j & Hj).
+  exists j, (hvals hl), parts. split; [exact Hj|]. split; [cbn [hstep]; rewrite Et; reflexivity|].
   split; [exact Ec|]. split; [exact F|].
-  destruct (Forall2_nth_error_l _ _ _ F j _ Hsrc) as (ps & Hps & R). rewrite Hps. f_equal.
+  destruct (Forall2_nth_error_l _ _ _ F j _ Hj) as (ps & Hps & R). rewrite Hps. f_equal.
   apply (cr_fixed _ _ R). reflexivity.
 Qed.
 
@@ -459,8 +451,9 @@ Qed.
 (* non-vacuity: the history of the two seeded memo patches, on the model *)
 Example ex_history :
   hist (qc 1 1048576) (qc 1 1024) (qc 1 100) ex_cells
-       [HMbr 0 (qc 1 2); HSetFixed 0 0 true; HApply 0 (OpRefine (qc 1 2) 1); HMbr 0 (qc 1 2);
-        HSetFixed 1 0 false; HMbr 0 (qc 1 2)] =
-  Some [OBool true; OFlags [[true; true]]; ONew (Some (map (fun c => cset_fixed true c) ex_cells)); OBool false;
-        OFlags [[false; true]; [false; true]]; OBool true].
+       [HMbr 0 (qc 1 2); HSetFixed 0 (qc 1 1) (qc 1 1) true; HApply 0 (OpRefine (qc 1 2) 1); HMbr 0 (qc 1 2);
+        HSetFixed 1 (qc 1 1) (qc 1 1) false; HMbr 0 (qc 1 2)] =
+  Some [OBool true; OFixed [[(qc 1 1, qc 1 1); (qc 3 1, qc 1 1)]];
+        ONew (Some (map (fun c => cset_fixed true c) ex_cells)); OBool false;
+        OFixed [[(qc 3 1, qc 1 1)]; [(qc 3 1, qc 1 1)]]; OBool true].
 Proof. vm_compute. reflexivity. Qed.
